@@ -482,7 +482,7 @@ impl World for WorldU {
                         version: match rng.weighted(&[2, 6, 2]) { 0 => VerSel::Same, 1 => VerSel::Correct, _ => VerSel::Wrong },
                         wasm: match rng.weighted(&[if dummy { 2 } else { 8 }, if dummy { 8 } else { 1 }, 1]) { 0 => WasmSel::Contract, 1 => WasmSel::Dummy, _ => WasmSel::Bogus },
                         cover: if p.faults && rng.chance(2, 5) { rng.pick(&[Cover::UpgradeOnly, Cover::MigrateOnly, Cover::Nobody, Cover::StrangerBoth, Cover::FormerBoth]).clone() } else { Cover::Both },
-                        data: match rng.weighted(&[if dummy { 2 } else { 8 }, 1, if dummy { 8 } else { 1 }]) { 0 => MigData::Unit, 1 => MigData::U32, _ => MigData::Str },
+                        data: match rng.weighted(&[if dummy { 2 } else { 8 }, 1, if dummy { 8 } else { 1 }, 2]) { 0 => MigData::Unit, 1 => MigData::U32, 2 => MigData::Str, _ => MigData::None },
                         abort,
                     }
                 }
